@@ -222,6 +222,24 @@ CHECKS["C17"] = {
 }
 
 
+CHECKS["C18"] = {
+    "level": "fault_enumeration",
+    "technique": "exhaustive single- and double-fault enumeration (fail the k-th allocation for every k) on the real code under ASan+UBSan",
+    "level_text": "For each of the repository's ~100 captures plus 19 generated exchanges (multipart with file, urlencoded, cookies, all auth types, CONNECT, pipelining, PUT, folded headers, "
+                  "100-continue, chunked+trailer, gzip/zlib/raw deflate/2-layer/request gzip, absolute URI, 0.9, malformed lines), under two configurations and two chunkings (as captured, and "
+                  "re-cut into 5-byte chunks so that the line-buffering allocations exist), the run is repeated once per allocation made inside libhtp (malloc/calloc/realloc/strdup incl. the "
+                  "LZMA allocator, and inflateInit2_) with exactly that allocation failing - every k up to the fault-free count - and with all pairs (k1,k2) within a window of 40 on the "
+                  "smaller items. Oracle: no ASan/UBSan report, every call returns, the stream-API contract monitor keeps holding on later calls, teardown completes.",
+    "level_note": "Leaks while a fault is being injected are not judged (the statement asks for no crash, corruption, double free or use-after-free). zlib's internal allocations are reached only "
+                  "through inflateInit2_ returning Z_MEM_ERROR.",
+    "design_ref": "DESIGN.md §6 C18",
+    "rule": "corpus item x cfg x chunking x k in 1..N (N measured per item); distinct = distinct (callback trace, call count, final statuses) outcomes",
+    "bounds": {"quick": "all single faults; pairs (window 40) on the first 40 items", "thorough": "pairs on every item < 600 bytes"},
+    "assumptions": ["corpus of mc/corpus.c + test/files/*.t"],
+    "jobs": lambda tier: [J("faultmc", "asan")],
+}
+
+
 def manifest():
     import json, os
     root = os.path.dirname(os.path.dirname(os.path.abspath(__file__)))
@@ -256,6 +274,7 @@ ENGINES = [
     {"name": "enum_c13", "path": "mc/enum_c13.c", "serves_properties": ["C13"], "kind_free_text": "E3: exhaustive string enumeration through htp_parse_uri with a partition checker"},
     {"name": "enum_c15", "path": "mc/enum_c15.c", "serves_properties": ["C15"], "kind_free_text": "E3: exhaustive strings x all partitions x decoder lattice through the urlencoded parser vs mc/ref.c"},
     {"name": "enum_c17", "path": "mc/enum_c17.c", "serves_properties": ["C17"], "kind_free_text": "E4+E3: BFS over container op sequences and exhaustive primitive arguments vs reference models"},
+    {"name": "faultmc", "path": "mc/faultmc.c", "serves_properties": ["C18"], "kind_free_text": "E5: exhaustive k-th allocation failure enumeration under ASan+UBSan"},
     {"name": "cutmc", "path": "mc/cutmc.c", "serves_properties": ["C02", "C03", "C04", "C06", "C16"], "kind_free_text": "E1: stateless deviation-bounded explorer of segmentation / generated grammar on the real code"},
 ]
 
